@@ -215,15 +215,15 @@ def gen_document_case(rng):
     d = {"cls": "RTFDocument"}
     if r < 0.45:
         which = rng.choice(["group_by", "page_by", "subline_by"])
-        cols = ["N0", "N1"][:rng.randint(1, 2)]
-        cols[rng.randrange(len(cols))] = rng.choice(["missing", "n0", "N9", ""])
+        cols = ["N0", "N1", "N2", "N3"][:rng.choice([1, 2, 2, 3, 4])]
+        cols[rng.choice([len(cols) - 1, rng.randrange(len(cols))])] = rng.choice(["missing", "n0", "N9", ""])
         # the column names as a list, a tuple or (one name) a bare string; sometimes next to another, valid,
         # grouping option
         form = rng.choice(["list", "list", "tuple", "tuple", "str"])
         body = {which: cols}
         other = rng.choice([k for k in ("group_by", "page_by", "subline_by") if k != which])
         if rng.random() < 0.3:
-            body[other] = ["N2"]
+            body[other] = ["N4"]
         d.update(field=which, bad=cols, form=form)
         return {"cls": "RTFDocument", "doc": {"df": rng.choice([0, 1, 3, 3]), "body": body, "form": form}, "desc": d, "n": 2,
                 "expect": "ValueError"}
@@ -254,7 +254,8 @@ def construct(case, figpath):
         kw = {}
 
         def df(n=3):
-            return pl.DataFrame({"N0": ["a"] * n, "N1": ["b"] * n, "N2": list(range(n))})
+            return pl.DataFrame({"N0": ["a"] * n, "N1": ["b"] * n, "N2": ["c"] * n, "N3": ["d"] * n,
+                                 "N4": list(range(n))})
         if "df" in dd:
             kw["df"] = df(dd["df"])
         if "body" in dd:
